@@ -114,11 +114,14 @@ impl<'a> LoweringManager<'a> {
   ) -> (Vec<lir::GenenalLoopVariable>, Vec<lir::Statement>) {
     for i in 0..loop_variables.len() {
       if let lir::Expression::Variable(n, t) = loop_variables[i].loop_value.clone() {
-        if loop_variables[..i].iter().any(|it| it.name == n) {
+        let reassigned =
+          loop_variables[..i].iter().find(|it| it.name == n).map(|it| it.type_.clone());
+        if let Some(declared_type) = reassigned {
+          // A plain copy into a local of the variable's own declared type: no cast is involved.
           let temp = self.heap.alloc_temp_str();
-          statements.push(lir::Statement::Cast {
+          statements.push(lir::Statement::LateInitDeclaration { name: temp, type_: declared_type });
+          statements.push(lir::Statement::LateInitAssignment {
             name: temp,
-            type_: t.clone(),
             assigned_expression: lir::Expression::Variable(n, t.clone()),
           });
           loop_variables[i].loop_value = lir::Expression::Variable(temp, t);
